@@ -50,6 +50,11 @@ def main(argv):
         mod = importlib.import_module(CHECKS[prop])
         rc = mod.replay(doc)
         return rc
+    if argv and argv[0] == "--selftest":
+        stage()
+        from . import selftest
+
+        return selftest.main()
     if not argv or argv[0] not in CHECKS:
         print(__doc__)
         return 2
